@@ -365,8 +365,24 @@ def valid(node):
 
 # type trees:  ("num", dtype) | ("list", T) | ("regular", T, size) | ("option", T) | ("record", keys|None, [T...]) | ("union", [T...])
 
+NAMES = 0.0          # probability that a generated record type carries a name (set by the `types` family only)
+CATEGORICAL = 0.0    # probability of a categorical leaf (an IndexedArray with __array__ = "categorical"), ditto
+
+
+def _named(rng, T):
+    if NAMES and rng.random() < NAMES:
+        return T + (rng.choice(["Pt", "Vec"]),)
+    return T
+
+
 def gen_type(rng, depth, allow_option=True, allow_record=True, allow_union=False, leaf_dtypes=None, regular=True):
     leaf_dtypes = leaf_dtypes or ["int64", "float64", "bool", "int32", "uint8", "float32", "int16", "uint64"]
+    if CATEGORICAL and depth <= 0 and allow_record and rng.random() < CATEGORICAL:
+        k = rng.randint(1, 2)
+        inner = rng.choice([("num", rng.choice(leaf_dtypes)), ("string", "string"),
+                            _named(rng, ("record", ["x", "y"][:k], [("num", rng.choice(leaf_dtypes)) for _ in range(k)])),
+                            _named(rng, ("record", None, [("num", rng.choice(leaf_dtypes)) for _ in range(k)]))])
+        return ("categorical", inner)
     r = rng.random()
     if allow_option and r < 0.2:
         return ("option", gen_type(rng, depth, False, allow_record, allow_union, leaf_dtypes, regular))
@@ -374,7 +390,7 @@ def gen_type(rng, depth, allow_option=True, allow_record=True, allow_union=False
         if allow_record and rng.random() < 0.15:
             k = rng.randint(1, 2)
             keys = None if rng.random() < 0.3 else ["x", "y", "z"][:k]
-            return ("record", keys, [gen_type(rng, 0, True, False, False, leaf_dtypes, regular) for _ in range(k)])
+            return _named(rng, ("record", keys, [gen_type(rng, 0, True, False, False, leaf_dtypes, regular) for _ in range(k)]))
         if allow_record and rng.random() < 0.12:      # (allow_record doubles as "rich leaves allowed")
             return ("string", rng.choice(["string", "bytestring"])) if rng.random() < 0.8 else ("string", rng.choice(["string", "bytestring"]), rng.randint(0, 2))
         return ("num", rng.choice(leaf_dtypes))
@@ -385,7 +401,7 @@ def gen_type(rng, depth, allow_option=True, allow_record=True, allow_union=False
     if allow_record and r < 0.2:
         k = rng.randint(1, 2)
         keys = None if rng.random() < 0.3 else ["x", "y", "z"][:k]
-        return ("record", keys, [gen_type(rng, depth - rng.randint(0, 1), True, False, allow_union, leaf_dtypes, regular) for _ in range(k)])
+        return _named(rng, ("record", keys, [gen_type(rng, depth - rng.randint(0, 1), True, False, allow_union, leaf_dtypes, regular) for _ in range(k)]))
     if regular and r < 0.35:
         return ("regular", gen_type(rng, depth - 1, allow_option, allow_record, allow_union, leaf_dtypes, regular), rng.randint(0, 3))
     return ("list", gen_type(rng, depth - 1, True, allow_record, allow_union, leaf_dtypes, regular))
@@ -445,6 +461,8 @@ def gen_value(rng, T, maxlen=3, none_p=0.3):
     if k == "union":
         i = rng.randrange(len(T[1]))
         return gen_value(rng, T[1][i], maxlen, none_p)
+    if k == "categorical":
+        return gen_value(rng, T[1], maxlen, none_p)
     raise ValueError(T)
 
 
@@ -474,6 +492,8 @@ def matches(v, T):
         return isinstance(v, dict) and list(v.keys()) == T[1] and all(matches(v[kk], t) for kk, t in zip(T[1], T[2]))
     if k == "union":
         return any(matches(v, t) for t in T[1])
+    if k == "categorical":
+        return matches(v, T[1])
     return False
 
 
@@ -542,6 +562,21 @@ class Enc:
     def _encode(self, values, T):
         rng, k = self.rng, T[0]
         rnd = self.style == "random"
+        if k == "categorical":
+            # dictionary encoding: the distinct values stored once, an IndexedArray marked categorical points at them
+            keys, content_vals, index = {}, [], []
+            for v in values:
+                kk = repr(v)
+                if kk not in keys:
+                    keys[kk] = len(content_vals)
+                    content_vals.append(v)
+                index.append(keys[kk])
+            saved, self.allow_indexed = self.allow_indexed, False
+            try:
+                inner = self._encode(content_vals, T[1])
+            finally:
+                self.allow_indexed = saved
+            return IX(rng.choice(["32", "U32", "64"]) if rnd else "64", index, inner).with_params({"__array__": '"categorical"'})
         if k == "num":
             dtype = T[1]
             if rnd and rng.random() < 0.3:
@@ -643,12 +678,34 @@ class Enc:
             if mode == "la_shuffle":
                 rng.shuffle(order)
             flat, starts, stops = [], [0] * n, [0] * n
+            placed = []
             for i in order:
+                # lists may overlap: a list whose elements already lie in the content (as another list, or as the
+                # head or tail of one) may point at them instead of getting its own copy
+                if lens[i] > 0 and rng.random() < 0.35:
+                    hit = None
+                    for k_ in placed:
+                        vk = values[k_]
+                        if len(vk) >= lens[i]:
+                            try:
+                                if vk[:lens[i]] == values[i]:
+                                    hit = (starts[k_], starts[k_] + lens[i])
+                                elif vk[len(vk) - lens[i]:] == values[i]:
+                                    hit = (stops[k_] - lens[i], stops[k_])
+                            except Exception:
+                                hit = None
+                        if hit:
+                            break
+                    if hit:
+                        starts[i], stops[i] = hit
+                        placed.append(i)
+                        continue
                 gap = rng.randint(0, 1)
                 flat += self._filler(values, T[1], gap)
                 starts[i] = len(flat)
                 flat += values[i]
                 stops[i] = len(flat)
+                placed.append(i)
             flat += self._filler(values, T[1], rng.randint(0, 1))
             content = self.encode(flat, T[1])
             for i in range(n):
@@ -735,7 +792,10 @@ class Enc:
                     col = [v[T[1][fi]] for v in values]
                 extra = self._filler(col, t, rng.randint(0, 1)) if rnd else []
                 contents.append(self.encode(col + extra, t))
-            return RC(n, T[1], contents)
+            node = RC(n, T[1], contents)
+            if len(T) > 3 and T[3]:
+                node.with_params({"__record__": '"%s"' % T[3]})
+            return node
         if k == "union":
             n = len(values)
             cols = [[] for _ in T[1]]
@@ -781,6 +841,8 @@ def junk_value(T):
         return tuple(vals) if T[1] is None else dict(zip(T[1], vals))
     if k == "union":
         return junk_value(T[1][0])
+    if k == "categorical":
+        return junk_value(T[1])
     raise ValueError(T)
 
 
